@@ -823,6 +823,51 @@ Proof.
   - cbn. split; [discriminate|]. intros (w' & Hw & _). discriminate.
 Qed.
 
+(* ------------------------------------------------------------------ C18: a dispatched refresh returns *)
+(* xgetgrent's ERANGE loop (grow the buffer, ask again) ends for every entry below half the size_t range, from every
+   positive buffer size, so the scan of every such database ends *)
+Lemma scan_buf_total needs : forall len,
+  (0 < len)%N -> Forall (fun n => (n <= 2 ^ (GenGids.size_bits - 1))%N) needs ->
+  exists len', scan_buf len needs = Some len' /\ (len <= len')%N.
+Proof.
+  induction needs as [|n r IH]; intros len Hl Hf; cbn [scan_buf].
+  - exists len. split; [reflexivity|apply N.le_refl].
+  - inversion Hf as [|? ? Hn Hr]; subst.
+    destruct (xgetgrent_buf_total (N.to_nat GenGids.size_bits) len n Hl Hn) as (l1 & E1).
+    { apply N.le_trans with (2 ^ (GenGids.size_bits - 1))%N; [exact Hn|].
+      apply N.le_trans with (1 * 2 ^ N.of_nat (N.to_nat GenGids.size_bits))%N.
+      - rewrite N.mul_1_l, N2Nat.id. apply N.pow_le_mono_r; [discriminate|]. vm_compute. discriminate.
+      - apply N.mul_le_mono_r. apply N.lt_pred_le. exact Hl. }
+    rewrite E1. destruct (xgetgrent_buf_sound _ _ _ _ E1) as [_ Hle].
+    destruct (IH l1) as (l2 & E2 & Hle2); [|exact Hr|].
+    + apply N.lt_le_trans with len; assumption.
+    + exists l2. split; [exact E2|]. apply N.le_trans with l1; assumption.
+Qed.
+
+(* the callback that has been dispatched runs to its return, whatever the scan meets: the timer thread goes on *)
+Theorem refresh_returns s tm snap sched :
+  x_phase s = PStarted tm snap ->
+  exists s1 e1 s2 e2, gt_step VRepo s (XScan sched) = Some (s1, e1) /\
+    gt_step VRepo s1 XCommit = Some (s2, e2) /\ x_phase s2 = PIdle /\
+    exists sc at_, In (EReturn sc at_) e2.
+Proof.
+  intros Hp.
+  assert (Hs : exists s1 e1, gt_step VRepo s (XScan sched) = Some (s1, e1)).
+  { cbn [gt_step]. rewrite Hp. eauto. }
+  destruct Hs as (s1 & e1 & Hs). exists s1, e1.
+  destruct (scan_step_spec _ _ _ _ _ _ _ Hp Hs) as (Hp1 & _ & _).
+  match type of Hp1 with x_phase s1 = PBuilt tm ?P ?A ?W => set (p := P) in *; set (att := A) in *; set (w := W) in * end.
+  destruct (do_commit VRepo s1 tm p att w (stat_was_called p)) as [s2 e2] eqn:E.
+  exists s2, e2. split; [exact Hs|].
+  assert (Hc : gt_step VRepo s1 XCommit = Some (s2, e2)) by (cbn [gt_step]; rewrite Hp1, E; reflexivity).
+  split; [exact Hc|].
+  destruct (do_commit_fields VRepo s1 tm p att w (stat_was_called p)) as (F1 & _).
+  rewrite E in F1. cbn [fst] in F1. split; [exact F1|].
+  exists (stat_was_called p), att. unfold do_commit in E. cbn [andb] in E. cbv iota in E.
+  destruct (rearm (refresh_commit (x_g s1) p) (x_active s1) (x_last s1) (x_clock s1)) as [[[a b] c] d].
+  inversion E; subst. cbn [app]. apply in_or_app. right. left. reflexivity.
+Qed.
+
 (* ------------------------------------------------------------------ witnesses: what the theorems exclude *)
 Definition wA : world := mkW [(100%N, [])] pwA (Some 5).
 Definition wB : world := mkW [(100%N, [alice])] pwA (Some 20).
